@@ -528,6 +528,8 @@ class Session(object):
         self.run_events = 0
         self.anomalies = []
         self.crash = None
+        self.stop_requested = False      # interrupt_exc == 'stop': SeedProgress.running() answers False from now on
+        self.stop_seen = False           # ... and the walker has asked
 
     # -- observation ---------------------------------------------------------------------------
     def read_saved(self):
@@ -549,7 +551,10 @@ class Session(object):
         self.run_events += 1
         if self.run_events > self.rk.bound:
             raise _Runaway()
-        if self.after_event(ev):
+        if self.interrupt_exc == 'stop':
+            if not self.stop_requested and self.after_event(ev):
+                self.stop_requested = True
+        elif self.after_event(ev):
             raise self.interrupt_exc()
 
     # -- one run of seed() -----------------------------------------------------------------------
@@ -576,6 +581,12 @@ class Session(object):
                         sess.anomalies.append('first run starts with progress %r' % (old_progress_identifier,))
                 else:
                     sess.emit({'ev': 'continue', 'old': enc_id(old_progress_identifier)})
+
+            def running(self):
+                if sess.stop_requested:
+                    sess.stop_seen = True
+                    return False
+                return True
 
             def step_forward(self, subtiles=1):
                 S_SeedProgress.step_forward(self, subtiles)
@@ -612,13 +623,14 @@ class Session(object):
                 U.ProgressLog.log_progress(self, progress, level, bbox, tiles)
                 ino2 = os.stat(sess.file).st_ino if os.path.exists(sess.file) else None
                 sess.emit({'ev': 'report', 'want': want, 'wrote': ino2 != ino, 'one': progress.progress == 1.0,
-                           'level': level})
+                           'level': level, 'stopping': bool(sess.stop_seen)})
 
         self.runs += 1
         self.run_events = 0
         self.handed = []
         self.progress = None
         self.clock = 0.0          # a new process: ProgressLog starts with _lastprogress = 0
+        self.stop_requested = self.stop_seen = False
         saved_names = (S.MetaGrid, S.SeedProgress, S.TileWorkerPool, U.time)
         S.MetaGrid, S.SeedProgress, S.TileWorkerPool, U.time = RecMetaGrid, RecProgress, StubPool, _FakeTime(self)
         out = io.StringIO()
@@ -628,8 +640,8 @@ class Session(object):
             with contextlib.redirect_stdout(out):
                 S.seed([self.task], concurrency=1, dry_run=False, skip_geoms_for_last_levels=self.wd.skip,
                        progress_logger=logger)
-            result = 'done'
-        except self.interrupt_exc:
+            result = 'interrupted' if self.stop_seen else 'done'     # stopped gracefully: the process ends, to be continued
+        except (self.interrupt_exc if self.interrupt_exc != 'stop' else KeyboardInterrupt):
             result = 'interrupted'
         except _Runaway:
             self.crash = 'Runaway: more than %d events in one run; the model needs less than a third of that' % self.rk.bound
@@ -749,7 +761,7 @@ def catalogue(tier):
 # TLC drivers
 # ------------------------------------------------------------------------------------------------
 ACTIONS = ['EnterRoot', 'Enter', 'Report', 'NoIntersect', 'StepDown', 'SkipProcessed', 'StepUp', 'Dedup', 'Process',
-           'LeafForward', 'FinalReport', 'Interrupt', 'Continue']
+           'LeafForward', 'FinalReport', 'Interrupt', 'Continue', 'StopReport', 'StoppedExit']
 INVARIANTS = ['TypeOK', 'NoOutside', 'CompleteRunExact', 'CompleteRunCoarse', 'WalkIsFull', 'ResumeCovers',
               'ResumeNoExtra', 'ReportedPathExact', 'SavedShape']
 
@@ -788,7 +800,7 @@ def action_coverage(r):
         if m:
             extra.append((int(m.group(1)), (int(m.group(2)), int(m.group(3)))))
     extra.sort()
-    for name, (ln, c) in zip(['Report', 'FinalReport'], extra):
+    for name, (ln, c) in zip(['Report', 'FinalReport', 'StopReport'], extra):
         cov[name] = c
     cov.pop('Next', None)
     return cov
@@ -1027,7 +1039,7 @@ class RandomDriver(object):
 
     def drive(self, wd, rk, workdir):
         sess = self.sess = Session(wd, rk, workdir, self.decide_save, self.after_event,
-                                   interrupt_exc=[KeyboardInterrupt, _seed_interrupted()][sum(c or 0 for c in self.cuts) % 2])
+                                   interrupt_exc=[KeyboardInterrupt, _seed_interrupted(), 'stop'][sum(c or 0 for c in self.cuts) % 3])
         try:
             for _ in range(len(self.cuts) + 2):
                 self.count = 0
@@ -1506,7 +1518,9 @@ def spec_to_code(ctx, items, thorough):
                               it.wd.name, key[1], div[0], div[1]),
                           {'kind': 'scripted', 'world': it.wd.desc, 'cuts': cuts, 'saves': saves})
     for a in ACTIONS:
-        if a not in acts:
+        # (the graceful stop is not part of the planned behaviours: it is explored by the model checker and recorded
+        # from the real code, see code -> spec)
+        if a not in acts and a not in ('StopReport', 'StoppedExit'):
             raise tlc.MachineryError('no replayed behaviour contains action %s' % a)
     ctx.log('replayed %d distinct TLC behaviours (%d steps) on the real seeder' % (len(seen), ctx.cov['replayed_steps']))
 
@@ -1540,8 +1554,10 @@ def code_to_spec(ctx, items, name, per_world, nmax=3):
         ctx.cov['traces_validated_against_impl'] += len(traces) - len(rejected)
         ctx.cov['states'] += r.distinct
         ctx.cov['transitions'] += r.generated
-    ctx.log('%s: %d recorded executions of %d worlds validated by TLC (%s rejected), %d events' % (
-        name, len(traces), len(items), 'invariant failed' if rejected is None else len(rejected), sum(len(t) for t in traces)))
+    nstop = sum(1 for t in traces if any(e.get('ev') == 'report' and e.get('stopping') for e in t))
+    ctx.cov['graceful_stops_recorded'] = ctx.cov.get('graceful_stops_recorded', 0) + nstop
+    ctx.log('%s: %d recorded executions of %d worlds validated by TLC (%s rejected), %d events, %d with a graceful stop' % (
+        name, len(traces), len(items), 'invariant failed' if rejected is None else len(rejected), sum(len(t) for t in traces), nstop))
     if traces:
         ctx.sample({'kind': 'execution recorded from the real seeder, validated by Trace_Seeder', 'world': meta[-1][0].wd.name,
                     'interrupted_after_events': meta[-1][1], 'events': [{k: v for k, v in e.items()} for e in traces[-1][:4]]})
@@ -1603,7 +1619,11 @@ def run(ctx):
     ritems = random_items(ctx, 800 if thorough else 80, 1500 if thorough else 600, 2500 if thorough else 1000)
     code_to_spec(ctx, ritems, 'random', 4 if thorough else 2)
 
+    if not ctx.cov.get('graceful_stops_recorded'):
+        raise tlc.MachineryError('vacuity: no recorded execution was stopped through SeedProgress.running()')
     ctx.assumptions += [
+        'interruptions: KeyboardInterrupt, SeedInterrupted (anywhere) and the graceful stop through SeedProgress.running() '
+        '(noticed at the head of _walk; its two progress reports are spec actions StopReport / FinalReport)',
         'work done = (meta) tiles handed to the worker pool (the observation point the property names); tiles lost inside the '
         'worker queue of a killed process are outside the statement',
         'every tile is uncached (handle_uncached with an empty cache), work_on_metatiles=True, levels ascending as '
